@@ -800,3 +800,15 @@ Definition ft_reconstruct (t : ftrie) (q : pfactors) (remove : bool)
   bind (rc_assign (fF t) (fst q) (snd q)) (fun f0 =>
     bind (rc_factors ord0 (fF t) remove ordv keysS f0 []) (fun '(keys', f', acc') =>
       Ok (mkFT (fF t) (fcounter t) keys', acc', f'))).
+
+(* ------------------------------------------------------------------------------------------ *)
+(* Copies.  Trie, FasterTrie and FilterMap are value types: the (implicit or user-written) copy
+   constructor, copy assignment and move produce an object with the same F, the same id counter and
+   the same id vectors / buckets / items.  (FasterTrie's rand_/orders_ only feed the shuffles, which
+   are inputs of the reconstruct model.)                                                        *)
+Definition trie_copy (t : trie) : trie := mkTrie (tF t) (tcounter t) (tids t).
+Definition ft_copy (t : ftrie) : ftrie := mkFT (fF t) (fcounter t) (fkeys t).
+Definition fm_copy {A} (m : fmap A) : fmap A := mkFM (trie_copy (fm_ids m)) (fm_items m).
+(* src: FilterMap.hpp:FilterMap(TrieType t, ItemsContainer c) — throws when the sizes differ *)
+Definition fm_of_trie {A} (t : trie) (items : list A) : res (fmap A) :=
+  bind (trie_size true t) (fun n => if n =? length items then Ok (mkFM (trie_copy t) items) else Throw).
